@@ -13,6 +13,8 @@ git checkout -q -- $(git diff --name-only | grep -v '^tests/seed' ) 2>/dev/null
 git apply seed.patch || { echo "patch does not apply"; exit 2; }
 echo "== with patch: demo (expect failure)"; bash demo.sh >/tmp/seed/$ID.demo_with.log 2>&1; W=$?; echo "demo exit $W"
 echo "== with patch: repository suite"; cargo nextest run --workspace --no-fail-fast --test-threads 8 --offline -E 'not binary(~seed)' 2>&1 | grep -E "^\s+Summary" | tee /tmp/seed/$ID.suite.log
+# (the filter is an error when no test binary has "seed" in its name: run everything then)
+if ! [ -s /tmp/seed/$ID.suite.log ]; then cargo nextest run --workspace --no-fail-fast --test-threads 8 --offline 2>&1 | grep -E "^\s+(Summary|FAIL)" | grep -v "deadpool-postgres::postgres" | sort -u | tee /tmp/seed/$ID.suite.log; fi
 git apply -R seed.patch
 echo "== without patch: demo (expect success)"; bash demo.sh >/tmp/seed/$ID.demo_without.log 2>&1; WO=$?; echo "demo exit $WO"
 git apply seed.patch
